@@ -114,11 +114,11 @@ def finish(pid, args, seed, jobs, results, t0):
             print(f'VIOLATION property={pid} replay={v["replay"].get("path")}')
             print('   ' + v['what'])
         exit_code = 1
-    elif unconfirmed:
+    if unconfirmed:
         for v in unconfirmed[:5]:
             print(f'INCONCLUSIVE: counterexample for {pid} not reproduced natively ({v["replay"].get("status")}: {v["replay"].get("detail", "")[:300]}): {v["what"]}')
             if v['replay'].get('path'): print('   trace: ' + v['replay']['path'])
-        exit_code = 2
+        if exit_code == 0: exit_code = 2
     elif inconclusive:
         for r in inconclusive[:5]:
             print(f'INCONCLUSIVE: family {r["family"]}: {r.get("inconclusive") or "required path truncated"}')
